@@ -81,7 +81,7 @@ func safeCounterQueue(pool *workerpool.WorkerPool) (cnt, q int) {
 	var x, y atomic.Int64
 	x.Store(-1)
 	y.Store(-1)
-	a.Do(func() {
+	do(a, func() {
 		x.Store(int64(pool.PendingTasksCounter.Get()))
 		y.Store(int64(pool.Queue.Size()))
 	})
@@ -247,7 +247,7 @@ func runStress(cfg stressCfg) (res stressResult) {
 	// Wait structurally (not on a WaitGroup: a submitter parked for ever inside
 	// Submit must not put the harness' main goroutine to sleep as well):
 	// everything that can still happen happens before quiescence.
-	gs0 := gdump.WaitQuiescent()
+	gs0 := waitQuiescent()
 	stuckSubs := subsLeft.Load()
 	stuckWhere := ""
 	if stuckSubs > 0 {
@@ -265,7 +265,7 @@ func runStress(cfg stressCfg) (res stressResult) {
 		}
 	}
 	subsDone.Store(true)
-	gdump.WaitQuiescent()
+	waitQuiescent()
 	stuckPool := -1
 	select {
 	case <-ctrlDone:
@@ -286,11 +286,11 @@ func runStress(cfg stressCfg) (res stressResult) {
 		p.mu.Lock()
 		p.sdFrom = append(p.sdFrom, f)
 		p.mu.Unlock()
-		shutRet[i] = sh.Do(func() { p.pool.Shutdown() }) == gdump.Returned
+		shutRet[i] = do(sh, func() { p.pool.Shutdown() }) == gdump.Returned
 		wt[i] = gdump.NewActor("final-wait")
-		wt[i].Do(func() { p.pool.ShutdownComplete.Wait() })
+		do(wt[i], func() { p.pool.ShutdownComplete.Wait() })
 	}
-	gs := gdump.WaitQuiescent()
+	gs := waitQuiescent()
 	all := recs[:min(int(next.Load()), maxTasks)]
 	for i, p := range pools {
 		var o outcome
